@@ -208,7 +208,7 @@ theorem sat_asked (c : RtCtx) (σ : CState) (isStart : Bool) (α : Full) (q : Qu
   apply sat_of_counters c σ _ α h
   intro i
   cases q with
-  | full j => exact onDemandAlloc_counter c σ j i
+  | full j => rfl
   | cond e =>
     simp only [RtCtx.applyEv]
     split
@@ -250,8 +250,8 @@ theorem prune_runTree (c : RtCtx) (isStart : Bool) (t : CTree) :
             subst hv
             have : (σ.str j).counter = (c.ty j).cap := by
               simpa [RtCtx.answer] using hq
-            show (true = true ↔ ((c.onDemandAlloc σ j).str j).counter = _)
-            rw [onDemandAlloc_counter]; simp [this]
+            show (true = true ↔ (σ.str j).counter = _)
+            simp [this]
           · exact sat_asked c σ isStart α _ true h j v hv
         · next hq =>
           apply ihf
@@ -264,8 +264,8 @@ theorem prune_runTree (c : RtCtx) (isStart : Bool) (t : CTree) :
             subst hv
             have : (σ.str j).counter ≠ (c.ty j).cap := by
               intro heq; apply hq; simp [RtCtx.answer, heq]
-            show (false = true ↔ ((c.onDemandAlloc σ j).str j).counter = _)
-            rw [onDemandAlloc_counter]; simp [this]
+            show (false = true ↔ (σ.str j).counter = _)
+            simp [this]
           · exact sat_asked c σ isStart α _ false h j v hv
       | some b =>
         have hb := h i b hα
